@@ -93,22 +93,11 @@ func (e *Enc) binop(fr *Frame, x *ssa.BinOp) {
 		case "Int":
 			e.setVal(fr, x, "("+op+" "+a+" "+b+")")
 		case "Str":
-			e.d.decl("strlt", "(Str Str) Bool")
-			lt := func(p, q string) string { return "(strlt " + p + " " + q + ")" }
-			var t string
-			switch x.Op {
-			case token.LSS:
-				t = lt(a, b)
-			case token.GTR:
-				t = lt(b, a)
-			case token.LEQ:
-				t = "(not " + lt(b, a) + ")"
-			case token.GEQ:
-				t = "(not " + lt(a, b) + ")"
-			}
-			e.setVal(fr, x, t)
-			// strict total order instances
-			e.assume(fmt.Sprintf("(and (not (and %s %s)) (= (or %s %s) (not (= %s %s))))", lt(a, b), lt(b, a), lt(a, b), lt(b, a), a, b))
+			// strings are compared through an order embedding into Int (any finite configuration of a total
+			// order embeds), which makes transitivity available to the solver
+			e.d.decl("strord", "(Str) Int")
+			e.assume(fmt.Sprintf("(= (= (strord %s) (strord %s)) (= %s %s))", a, b, a, b))
+			e.setVal(fr, x, "("+op+" (strord "+a+") (strord "+b+"))")
 		default:
 			e.setVal(fr, x, uf("flt_"+san(x.Op.String()), "Bool"))
 		}
@@ -373,6 +362,9 @@ func (e *Enc) willInline(callee *ssa.Function, depth int) bool {
 	if e.spec.contractFor(callee) != nil {
 		return false
 	}
+	if e.pureCalls && len(findLoops(callee)) > 0 {
+		return false
+	}
 	for _, f := range e.inlineStack {
 		if f == callee {
 			return false
@@ -566,6 +558,26 @@ func (e *Enc) ufResult(fr *Frame, c *ssa.Call, fn string, args []string, argVals
 // havocCall: results unknown; heap: objects that existed before the call keep their contents
 // (default frame, checked on the callee itself), unless full.
 func (e *Enc) havocCall(fr *Frame, st *State, c *ssa.Call, full bool) *State {
+	if e.pureCalls && !full {
+		// comparator harness: the heap is constant, so a call is a function of its arguments
+		cc := c.Common()
+		name := "PC_dyn"
+		var args []string
+		var vals []ssa.Value
+		if cc.IsInvoke() {
+			name = "PC_" + typeKey(cc.Value.Type()) + "_" + cc.Method.Name()
+			args = append(args, e.val(fr, cc.Value))
+			vals = append(vals, cc.Value)
+		} else if callee := cc.StaticCallee(); callee != nil {
+			name = "PC_" + san(shortName(callee))
+		}
+		for _, a := range cc.Args {
+			args = append(args, e.val(fr, a))
+			vals = append(vals, a)
+		}
+		e.ufResult(fr, c, name, args, vals)
+		return st
+	}
 	var ns *State
 	if full {
 		ns = e.newState(sHavoc, st)
@@ -645,6 +657,10 @@ func (e *Enc) inlineCall(fr *Frame, st *State, c *ssa.Call, callee *ssa.Function
 
 // inlineFn encodes the callee's body in place (its body is its contract).
 func (e *Enc) inlineFn(fr *Frame, st *State, callee *ssa.Function, args []string, argVals []ssa.Value, mc *ssa.MakeClosure, emit bool) ([]string, *State) {
+	return e.inlineFnB(fr, st, callee, args, argVals, mc, emit, nil)
+}
+
+func (e *Enc) inlineFnB(fr *Frame, st *State, callee *ssa.Function, args []string, argVals []ssa.Value, mc *ssa.MakeClosure, emit bool, bind func(nf *Frame)) ([]string, *State) {
 	e.n++
 	pfx := ""
 	depth := 1
@@ -672,6 +688,9 @@ func (e *Enc) inlineFn(fr *Frame, st *State, callee *ssa.Function, args []string
 		for i, fv := range callee.FreeVars {
 			nf.vals[fv] = e.val(fr, mc.Bindings[i])
 		}
+	}
+	if bind != nil {
+		bind(nf)
 	}
 	saveCur := e.cur
 	e.inlineStack = append(e.inlineStack, callee)
